@@ -646,7 +646,22 @@ func (f *frame) loopSpec(h *ssa.BasicBlock) *LoopSpec {
 	if f.spec == nil {
 		return nil
 	}
-	return f.spec.Loops[f.loopOrd[h]]
+	if ls := f.spec.Loops[f.loopOrd[h]]; ls != nil {
+		return ls
+	}
+	if f.spec.Sweep && f.top {
+		ls := &LoopSpec{Ordinal: f.loopOrd[h], NoTerm: true}
+		for _, in := range h.Instrs {
+			if phi, ok := in.(*ssa.Phi); ok && phi.Comment == "rangeindex" {
+				if c, err := parseClause("-1 <= rangeindex", 0); err == nil {
+					ls.Invariants = append(ls.Invariants, c)
+				}
+			}
+		}
+		f.spec.Loops[f.loopOrd[h]] = ls
+		return ls
+	}
+	return nil
 }
 
 func (f *frame) loopEnv(h *ssa.BasicBlock, st *State, override map[*ssa.Phi]Val) *Env {
